@@ -253,7 +253,15 @@ def check(case):
 @st.composite
 def accept_case(draw, tier):
     e0 = 10.0 ** draw(st.floats(-3, 3))
-    kind = draw(st.sampled_from(["worse", "worse", "worse", "equal", "better", "zero-zero", "zero-new", "zero-held"]))
+    kind = draw(st.sampled_from(["worse", "worse", "worse", "equal", "better", "zero-zero", "zero-new", "zero-held",
+                                 "barely-worse", "barely-worse"]))
+    if kind == "barely-worse":
+        # worse by a few units in the last places up to 1e-5 relative: still "worse", accepted with probability ~0.01
+        e1 = e0 * (1.0 + 10.0 ** draw(st.floats(-15.5, -5)))
+        if e1 == e0:
+            e1 = float(np.nextafter(e0, np.inf))
+        return {"e0": e0, "e1": e1, "kind": "worse", "draws": 400000 if tier == "thorough" else 100000,
+                "seed": draw(gen.SEEDS)}
     if kind.startswith("zero"):
         # exact zeros (perfect overlap), as Python floats or numpy scalars
         e0, e1 = {"zero-zero": (0.0, 0.0), "zero-new": (e0, 0.0), "zero-held": (0.0, e0)}[kind]
